@@ -147,12 +147,23 @@ func checkListing(r *rep.Reporter, kind, via string, live map[string]liveObj, pr
 }
 
 func httpListCheck(r *rep.Reporter, s *drv.Server, bucket string, live map[string]liveObj, prefix, delim string, v2 bool, ctx func() interface{}) {
+	httpListCheckRaw(r, s, bucket, live, prefix, delim, v2, false, ctx)
+}
+
+// rawSubDelims: the characters RFC 3986 allows unescaped in a query (";", ":", "@", "!", "'", "(",
+// ",", "$", "/", "?") are sent as they are instead of percent-encoded; S3 splits a query on "&" only.
+func httpListCheckRaw(r *rep.Reporter, s *drv.Server, bucket string, live map[string]liveObj, prefix, delim string, v2 bool, rawSubDelims bool, ctx func() interface{}) {
 	q := listReq(bucket, prefix, delim, v2)
-	resp := s.Do(q)
 	via := "http-v1"
 	if v2 {
 		via = "http-v2"
 	}
+	if rawSubDelims {
+		q.Query = strings.NewReplacer("%3B", ";", "%3A", ":", "%40", "@", "%21", "!", "%27", "'", "%28", "(", "%2C", ",", "%24", "$", "%2F", "/", "%3F", "?").Replace(q.Query)
+		via += "-raw-query"
+		r.Count("listings_with_raw_sub_delims", 1)
+	}
+	resp := s.Do(q)
 	r.Eval(1)
 	if resp.Panic != nil {
 		r.Violation(sig("C03", backendClass(s.Kind), "panic", delimClass(delim)+","+prefixClass(prefix, delim)),
@@ -334,7 +345,7 @@ func newListBucket(t c03Target) (*drv.Server, string) {
 func runC03(c *Ctx) {
 	r := c.R
 	maxLen := r.Pick(3, 4)
-	r.SetRule(fmt.Sprintf("exhaustive: keys over {a,b,/} up to length %d not starting/ending with '/', bucket contents = every subset of size <= %d (quick: 3, thorough: 2 plus random larger ones) reached by put/delete transitions, every prefix up to length %d not starting with the delimiter, delimiters absent and '/' on every backend plus 'b','-','.' on mem/bolt, V1, V2 and Go API; random: rich keys (escaped characters, multi-byte, characters sorting before '/') with every byte prefix of every live key, including prefixes that end inside a multi-byte character; distinct = (backend, live key set, prefix, delimiter, API form)", maxLen, r.Pick(3, 2), maxLen))
+	r.SetRule(fmt.Sprintf("exhaustive: keys over {a,b,/} up to length %d not starting/ending with '/', bucket contents = every subset of size <= %d (quick: 3, thorough: 2 plus random larger ones) reached by put/delete transitions, every prefix up to length %d not starting with the delimiter, delimiters absent and '/' on every backend plus 'b','-','.' on mem/bolt, V1, V2 and Go API; random: rich keys (escaped characters, multi-byte, characters sorting before '/', ';') with every byte prefix of every live key, including prefixes that end inside a multi-byte character, also with the query's sub-delimiter characters sent unescaped; distinct = (backend, live key set, prefix, delimiter, API form)", maxLen, r.Pick(3, 2), maxLen))
 	r.Exhaustive(true)
 	targets := []c03Target{{drv.Mem, false}, {drv.Mem, true}, {drv.Bolt, false}, {drv.FsMM, false}, {drv.FsDir, false}, {drv.SingleMM, false}, {drv.SingleDir, false}, {drv.SingleDirMemMeta, false}}
 	var tn []string
@@ -480,7 +491,7 @@ func runC03(c *Ctx) {
 		"fs backends: key sets are restricted to keys a filesystem can hold as distinct regular files (no empty/dot segments, no file/directory conflicts)")
 }
 
-var richAtoms = []string{"a", "b", "c", "x", "/", "/", "-", ".", " ", "+", "%", "&", "=", "?", "#", "é", "日", "_", "~", "A", "0", "%2F", ":", "@", "!", "'", "(", ",", "$"}
+var richAtoms = []string{"a", "b", "c", "x", "/", "/", "-", ".", " ", "+", "%", "&", "=", "?", "#", "é", "日", "_", "~", "A", "0", "%2F", ":", "@", "!", "'", "(", ",", "$", ";", ";"}
 
 func richKey(rng interface{ Intn(int) int }, maxAtoms int) string {
 	n := 1 + rng.Intn(maxAtoms)
@@ -496,7 +507,7 @@ func c03Random(r *rep.Reporter, s *drv.Server, bucket string, t c03Target, idx i
 	isFs := drv.IsFs(t.kind)
 	delims := []string{"", "/"}
 	if !isFs {
-		delims = append(delims, "-", ".", "b", "é", "%")
+		delims = append(delims, "-", ".", "b", "é", "%", ";")
 	}
 	live := map[string]liveObj{}
 	for round := 0; round < 6; round++ {
@@ -597,6 +608,9 @@ func c03Random(r *rep.Reporter, s *drv.Server, bucket string, t c03Target, idx i
 					continue
 				}
 				httpListCheck(r, s, bucket, live, p, dd, rng.Intn(2) == 0, ctx)
+				if strings.ContainsAny(p+dd, ";:@!'(,$?") && !strings.Contains(p+dd, "%") {
+					httpListCheckRaw(r, s, bucket, live, p, dd, rng.Intn(2) == 0, true, ctx)
+				}
 				if rng.Intn(6) == 0 {
 					goListCheck(r, s, bucket, live, p, dd, ctx)
 				}
